@@ -28,6 +28,7 @@ func c17(c *Ctx) {
 		entries = append(entries, fn, ma)
 	}
 	boundsFor(c, "C17", entries)
+	r.Infof("CTR.total/CTR.size: %d Marshal return path(s) checked", c.c17Seen)
 	nb := c17Bits(c)
 	minLenRule(c, []minLenRow{
 		{fn: "rtp.(*AbsSendTimeExtension).Unmarshal", want: []int{3}, why: "24-bit timestamp"},
